@@ -54,7 +54,23 @@ def env():
         _env['mm'] = mm
         _env['thermo'] = tmo.settings.get_thermo()
     _env['tmo'].settings.set_thermo(_env['thermo'])
+    _env['ids'] = IDS
     return _env
+
+REAL_IDS = ['Water', 'Ethanol', 'Nitrogen']
+def env_real():
+    """database chemicals (search step only; they load offline from the packaged data)"""
+    e = env()
+    if 'real' not in e:
+        tmo = e['tmo']
+        tmo.settings.set_thermo(tmo.Chemicals(REAL_IDS, cache=True))
+        e['real'] = tmo.settings.get_thermo()
+    e['tmo'].settings.set_thermo(e['real'])
+    e['ids'] = REAL_IDS
+    return e
+
+def setenv(case):
+    return env_real() if case.get('package') == 'real' else env()
 
 FLOWS = [0, 0, 1, 2, F(1, 2), 4, F(1, 4), 3, 8, 1024, F(1, 1024)]
 TS = [300 + F(k, 4) for k in range(0, 401)]
@@ -92,14 +108,24 @@ def gen_script(rng, fail_single=None):
         tbl['gl'] = val()
     return tbl
 
-def gen_mix(rng, scripted):
+def stub_C(d):
+    return sum(F(x) * F(c) for row in d['rows'].values() for x, c in zip(row, CN))
+def stub_H(d):
+    return stub_C(d) * (F(d['T']) - TREF)
+def is_empty(d):
+    return not any(any(r) for r in d['rows'].values())
+TMIN = 50     # the stub's enthalpy is only defined for T > 0: targets that need a colder stream are outside the property
+
+def gen_mix(rng, scripted, fail_single=False):
     n = rng.randint(2, 5)
-    multi_recv = rng.random() < 0.2
+    multi_recv = rng.random() < 0.2 and not fail_single
     phases = 'llgglg' if (multi_recv or rng.random() < 0.7) else 'llgglgsL'
     streams = [gen_stream(rng, phases=phases) for _ in range(n)]
     r = rng.randrange(n)
     if multi_recv and not streams[r]['multi']:
         streams[r] = gen_stream(rng, multi_p=1.)
+    if fail_single and streams[r]['multi']:
+        streams[r] = gen_stream(rng, multi_p=0., phases='lg')
     if streams[r]['multi']:
         for s in streams:           # inlet phases outside the receiver's phases are C01's subject
             if not s['multi']:
@@ -116,9 +142,19 @@ def gen_mix(rng, scripted):
         others.insert(rng.randrange(len(others) + 1), [rng.choice(['heat', 'power']), float(rng.choice(QS[3:]))])
     if rng.random() < 0.08:
         others.insert(rng.randrange(len(others) + 1), ['none'])
+    if not streams[r]['multi'] and 's' in streams[r]['rows'] and any(streams[o[1]]['multi'] for o in others if o[0] == 's'):
+        # copy_like of a multi-phase source into a stream whose phase the source lacks raises UndefinedPhase and leaves a
+        # corrupt object (C13/C01 finding); not this property's subject
+        streams[r]['rows'] = {'l': streams[r]['rows']['s']}
     case = {'kind': 'mixs' if scripted else 'mix', 'streams': streams, 'r': r, 'others': others, 'Q': float(rng.choice(QS))}
+    ne = [streams[o[1]] for o in others if o[0] == 's' and not is_empty(streams[o[1]])]
+    if ne and not scripted:
+        H = sum(stub_H(d) for d in ne) + F(case['Q']) + sum(F(o[1]) for o in others if o[0] in ('heat', 'power'))
+        if TREF + H / sum(stub_C(d) for d in ne) < TMIN:       # unreachable: needs T < 0
+            case['Q'] = abs(case['Q'])
+            case['others'] = [[o[0], abs(o[1])] if o[0] in ('heat', 'power') else o for o in others]
     if scripted:
-        case['script'] = gen_script(rng, fail_single=rng.random() < 0.4)
+        case['script'] = gen_script(rng, fail_single=fail_single)
     return case
 
 def gen_sep(rng):
@@ -131,6 +167,9 @@ def gen_sep(rng):
             tgt = streams[r]['rows']
             key = ph if ph in tgt else next(iter(tgt))
             tgt[key] = [a + b + float(rng.choice([0, 1, F(1, 2)])) for a, b in zip(tgt[key], row)]
+    Cr, Co = stub_C(streams[r]), stub_C(streams[o])
+    if r != o and Cr != Co and TREF + (stub_H(streams[r]) - stub_H(streams[o])) / (Cr - Co) < TMIN:
+        streams[o]['T'] = streams[r]['T']
     return {'kind': 'sep', 'streams': streams, 'r': r, 'o': o}
 
 def gen_set(rng):
@@ -140,6 +179,12 @@ def gen_set(rng):
     mode = rng.choice(['value', 'value', 'current', 'zero'])
     case = {'kind': 'set', 'stream': s, 'which': which, 'mode': mode,
             'value': float(rng.choice([0, 1024, -1024, 4096, 8192, F(1, 2), 65536, 100, 20000]))}
+    C = stub_C(s)
+    if not scripted and C > 0 and case['value'] < 0:
+        tot = sum(F(x) for row in s['rows'].values() for x in row)
+        Hf = sum(F(x) * F(h) for row in s['rows'].values() for x, h in zip(row, HF))
+        H = {'H': F(case['value']), 'h': F(case['value']) * tot, 'Hnet': F(case['value']) - Hf}[which]
+        if TREF + H / C < TMIN: case['value'] = abs(case['value'])
     if scripted:
         case['script'] = gen_script(rng)
         if which == 'S' and rng.random() < 0.5:
@@ -166,7 +211,7 @@ def gen_cases(rng, tier):
     n = 1 if tier == 'quick' else 12
     cases = []
     cases += [gen_mix(rng, False) for _ in range(150 * n)]
-    cases += [gen_mix(rng, True) for _ in range(50 * n)]
+    cases += [gen_mix(rng, True, rng.random() < 0.5) for _ in range(70 * n)]
     cases += [gen_sep(rng) for _ in range(40 * n)]
     cases += [gen_set(rng) for _ in range(70 * n)]
     cases += [gen_iter(rng) for _ in range(40 * n)]
@@ -181,13 +226,13 @@ def err_of(ex):
     return ERR.get(type(ex).__name__, 'EOther')
 
 def build_stream(d):
-    tmo = env()['tmo']
+    tmo = _env['tmo']; ids = _env['ids']       # the package was selected by env() / setenv(case)
     if d['multi']:
-        kw = {ph: [(i, x) for i, x in zip(IDS, row) if x] for ph, row in d['rows'].items() if any(row)}
+        kw = {ph: [(i, x) for i, x in zip(ids, row) if x] for ph, row in d['rows'].items() if any(row)}
         s = tmo.MultiStream(None, T=d['T'], P=d['P'], phases=tuple(sorted(d['rows'])), **kw)
     else:
         (ph, row), = d['rows'].items()
-        s = tmo.Stream(None, T=d['T'], P=d['P'], phase=ph, **{i: x for i, x in zip(IDS, row) if x})
+        s = tmo.Stream(None, T=d['T'], P=d['P'], phase=ph, **{i: x for i, x in zip(ids, row) if x})
     return s
 
 def snap(s):
@@ -257,6 +302,11 @@ def set_value(case, s):
         return 0.
     return case['value']
 
+def readable(f):
+    """a scripted solver may leave T where the stub's enthalpy is undefined (T < 0): then only the state is compared"""
+    try: return f()
+    except RuntimeError: return None
+
 def run_impl(case):
     e = env(); mm = e['mm']
     k = case['kind']
@@ -273,7 +323,7 @@ def run_impl(case):
         except Exception as ex:
             out['err'] = err_of(ex); out['exc'] = f'{type(ex).__name__}: {ex}'[:200]
         out['final'] = [snap(s) for s in objs]
-        out['H'] = [fr_json(frac(s.H)) for s in objs]
+        out['H'] = readable(lambda: [fr_json(frac(s.H)) for s in objs])
         return out
     if k == 'set':
         s = build_stream(case['stream'])
@@ -286,9 +336,7 @@ def run_impl(case):
             except Exception as ex:
                 out['err'] = err_of(ex); out['exc'] = f'{type(ex).__name__}: {ex}'[:200]
         out['final'] = snap(s)
-        out['H'] = fr_json(frac(s.H))
-        out['Hnet'] = fr_json(frac(s.Hnet))
-        out['h'] = None if s.h is None else fr_json(frac(s.h))
+        out['H'] = readable(lambda: [fr_json(frac(s.H)), fr_json(frac(s.Hnet)), None if s.h is None else fr_json(frac(s.h))])
         return out
     if k == 'iter':
         a, b, c, d = case['a'], case['b'], case['c'], case['d']
@@ -391,18 +439,28 @@ def model_term(case, out):
                 f'{q(case["H"])} {q(case["Tguess"])} (fun T => {a} * T + {b}) (fun _ => {c}))')
     raise ValueError(k)
 
+def cancels(snapshot, H):
+    """float H = C*(T - Tref) loses digits when it is tiny relative to C*T; then only the state (T to 1e-9) is compared"""
+    C = sum(F(x) * F(c) for _, row in snapshot['pm'] for x, c in zip(row, CN))
+    return abs(F(H)) < F(1, 100000) * C * abs(F(snapshot['T']))
+
 def coq_case(case, out):
     k = case['kind']
     t = model_term(case, out)
     if k in ('mix', 'mixs', 'sep'):
         exp = cres(out['err'], clist([cstream(s) for s in out['final']]))
+        if out['H'] is None or any(cancels(sn, h) for sn, h in zip(out['final'], out['H'])):
+            return f'(res_eqb store_eqb {t} {exp})'
         return f'(store_check {coracles(case)} {t} {exp} {qlist([F(x) for x in out["H"]])})'
     if k == 'set':
         O = coracles(case)
         fin = cstream(out['final'])
-        return (f'(sres_eqb {t} {fin} {copt(out["err"])} && qapproxb (getH {O} (fst {t})) {q(F(out["H"]))} && '
-                f'qapproxb (getHnet {O} (fst {t})) {q(F(out["Hnet"]))} && '
-                f'opt_eqb qapproxb (geth {O} (fst {t})) {copt(out["h"], lambda x: q(F(x)))})')
+        if out['H'] is None or cancels(out['final'], out['H'][0]) or abs(F(out['H'][1])) < F(1, 100000) * abs(F(out['H'][0])):
+            return f'(sres_eqb {t} {fin} {copt(out["err"])})'
+        H, Hnet, h = out['H']
+        return (f'(sres_eqb {t} {fin} {copt(out["err"])} && qapproxb (getH {O} (fst {t})) {q(F(H))} && '
+                f'qapproxb (getHnet {O} (fst {t})) {q(F(Hnet))} && '
+                f'opt_eqb qapproxb (geth {O} (fst {t})) {copt(h, lambda x: q(F(x)))})')
     if k == 'iter':
         if out['err']:
             return f'(it_eqb {t} (Err {out["err"]}))'
@@ -457,13 +515,27 @@ def state(s):
     tmo = env()['tmo']
     return (type(s).__name__, tuple(s.phases), tuple(np.asarray(s.imol.data.to_array(), float).reshape(-1)), float(s.T), float(s.P))
 
+def reachable(s, w, target, lo=200., hi=600.):
+    """is `target` between the values of property w of stream s at the ends of the temperature range?"""
+    T0 = s.T
+    try:
+        s.T = lo; a = getattr(s, w)
+        s.T = hi; b = getattr(s, w)
+    except Exception:
+        return False
+    finally:
+        s.T = T0
+    return min(a, b) <= target <= max(a, b)
+
 def script_honest(case):
     """a scripted solver is not a solver; the property is only checked with the real one (optionally made to raise for some phases)"""
     return not case.get('script')
 
 def oracle(case):
-    e = env(); tmo = e['tmo']
+    e = setenv(case); tmo = e['tmo']
     k = case['kind']
+    real = case.get('package') == 'real'
+    tolH = 1e-6 if real else 1e-7
     if k in ('mix', 'mixs'):
         objs = [build_stream(d) for d in case['streams']]
         others = build_others(case, objs)
@@ -479,14 +551,15 @@ def oracle(case):
                 r.mix_from(others, Q=case['Q'])
         except Exception as ex:
             if case.get('script'): return None       # the injected solver failures may make the mix impossible
-            if total_in == 0: return None
+            if total_in == 0 or r.F_mol == 0 or any(x < 0 for x in state(r)[2]): return None
+            if not reachable(r, 'H', H_in): return None
             return f'mix_from raised {type(ex).__name__}: {ex}'
         tag = ('mix-one-inlet' if len(ne) == 1 else 'mix-receiver-among-inlets' if any(o is r for o in ne) else 'mix')
         for j, s in enumerate(objs):
             if s is not r and state(s) != before[j]: return f'{tag}: mix_from modified inlet/bystander stream {j}'
         if not close(r.F_mol, total_in): return None   # material is C01's subject
         if r.F_mol == 0: return None
-        if not close(r.H, H_in, 1e-7):
+        if not close(r.H, H_in, tolH):
             return f'{tag}: H of the receiver after mixing is {r.H!r}, sum of inlet H plus heat is {H_in!r}'
         if r.P != P_min:
             return f'{tag}: P of the receiver is {r.P!r}, lowest inlet pressure is {P_min!r}'
@@ -499,11 +572,13 @@ def oracle(case):
         try:
             r.separate_out(o)
         except Exception as ex:
-            return None if r.isempty() or r.F_mol == 0 else f'sep: separate_out raised {type(ex).__name__}: {ex}'
+            if r.isempty() or r.F_mol == 0 or any(x < 0 for x in state(r)[2]): return None
+            if not reachable(r, 'H', H_exp): return None      # the difference is not an enthalpy this material can have
+            return f'sep: separate_out raised {type(ex).__name__}: {ex}'
         for j, s in enumerate(objs):
             if s is not r and state(s) != before[j]: return f'sep: separate_out modified stream {j}'
         if r.F_mol == 0: return None
-        if not close(r.H, H_exp, 1e-7): return f'sep: H after separate_out is {r.H!r}, H(self) - H(other) was {H_exp!r}'
+        if not close(r.H, H_exp, tolH): return f'sep: H after separate_out is {r.H!r}, H(self) - H(other) was {H_exp!r}'
         return None
     if k == 'set':
         s = build_stream(case['stream'])
@@ -513,12 +588,14 @@ def oracle(case):
         if case['mode'] == 'current':
             T0, ph0 = s.T, s.phases
             setattr(s, w, getattr(s, w))
-            if not close(s.T, T0, 1e-7) or s.phases != ph0:
+            # database package: S(T) of liquid water is quantised at ~5e-4 J/mol/K inside thermo's integral, which moves
+            # T by up to ~5e-4 K; the stub package is exact
+            if not close(s.T, T0, 1e-5 if real else 1e-7) or s.phases != ph0:
                 return f'set-{w}: assigning the current {w} moved the stream from T={T0}, {ph0} to T={s.T}, {s.phases}'
             return None
         # a reachable target: the value the stream has at another temperature in range
         T0 = s.T
-        s.T = 300. + (case['value'] % 97)
+        s.T = (T0 - 20. + (case['value'] % 41)) if real else 300. + (case['value'] % 97)
         target = getattr(s, w)
         s.T = T0
         flows = state(s)[2]
@@ -529,7 +606,7 @@ def oracle(case):
             return f'set-{w}-fallback: setter raised {type(ex).__name__}: {str(ex)[:120]}' if case.get('script') and _one_flip_ok(case) else None
         back = getattr(s, w)
         tag = f'set-{w}-fallback' if case.get('script') else f'set-{w}'
-        if not close(back, target, 1e-6): return f'{tag}: assigned {w}={target!r}, reading it back gives {back!r} (T={s.T})'
+        if not close(back, target, 1e-5 if real else 1e-6): return f'{tag}: assigned {w}={target!r}, reading it back gives {back!r} (T={s.T})'
         if state(s)[2] != flows: return f'{tag}: the setter changed the flows'
         return None
     if k == 'iter':
@@ -550,8 +627,42 @@ def _one_flip_ok(case):
 def finding_key(case, msg):
     return 'C02:' + msg.split(':')[0]
 
+def gen_real_stream(rng, multi_p=0.2):
+    P = float(rng.choice([1e4, 5e4, 101325., 2e5, 1e6, 1e7]))
+    def liq(): return [float(rng.choice([0, 1, 2, F(1, 2), 10])), float(rng.choice([0, 1, 3, F(1, 4)])), 0.]
+    def gas(): return [float(rng.choice([0, 1, F(1, 2)])), float(rng.choice([0, 0, 1])), float(rng.choice([1, 2, 5, F(1, 2)]))]
+    if rng.random() < multi_p:
+        return {'multi': True, 'rows': {'g': gas(), 'l': liq()}, 'T': float(rng.randint(300, 360)), 'P': P}
+    if rng.random() < 0.6:
+        r = liq()
+        if not any(r): r[0] = 1.
+        return {'multi': False, 'rows': {'l': r}, 'T': float(rng.randint(280, 360)) + rng.choice([0., .25, .5]), 'P': P}
+    return {'multi': False, 'rows': {'g': gas()}, 'T': float(rng.randint(300, 450)) + rng.choice([0., .25, .5]), 'P': P}
+
 def search_cases(rng, tier):
     cases = []
+    # a real property package (Water, Ethanol, Nitrogen from the packaged database) with the real solver
+    for _ in range(40 if tier == 'quick' else 400):
+        n = rng.randint(2, 4)
+        streams = [gen_real_stream(rng) for _ in range(n)]
+        r = rng.randrange(n)
+        if streams[r]['multi']: streams[r] = gen_real_stream(rng, multi_p=0.)
+        k = rng.randint(1, 3)
+        others = [['s', rng.randrange(n)] for _ in range(k)]
+        if rng.random() < 0.3: others[0] = ['s', r]
+        if rng.random() < 0.2: others.append(['heat', float(rng.choice([100., -100., 1000.]))])
+        cases.append({'kind': 'mix', 'package': 'real', 'streams': streams, 'r': r, 'others': others,
+                      'Q': float(rng.choice([0, 0, 100, -100, 1000]))})
+    for _ in range(40 if tier == 'quick' else 400):
+        cases.append({'kind': 'set', 'package': 'real', 'stream': gen_real_stream(rng, multi_p=0.3),
+                      'which': rng.choice(['H', 'S', 'h', 'Hnet']), 'mode': rng.choice(['value', 'current']),
+                      'value': float(rng.randint(0, 96))})
+    for _ in range(20 if tier == 'quick' else 200):
+        a, b = gen_real_stream(rng, multi_p=0.), gen_real_stream(rng, multi_p=0.)
+        ph, = a['rows']
+        brow, = b['rows'].values()
+        a['rows'][ph] = [x + y + 1. for x, y in zip(a['rows'][ph], brow)]
+        cases.append({'kind': 'sep', 'package': 'real', 'streams': [a, b], 'r': 0, 'o': 1})
     for _ in range(60):
         c = gen_set(rng)
         c.pop('script', None)
